@@ -163,7 +163,9 @@ _ABSTRACT_MAPPING: t.Mapping[type, type] = t.cast(t.Mapping[type, type], {
 
 
 def _make_converter_key_f(ty: IntoConverter, handlers: ConverterHandlers = ConverterHandlers()) -> t.Any:
-    return (id(ty), handlers)
+    # the number of registered global handlers is part of the key:
+    # a converter memoized before a registration must not be reused afterwards
+    return (id(ty), handlers, len(_GLOBAL_HANDLERS))
 
 
 @t.overload
